@@ -15,6 +15,7 @@ R11.8  count-leading/trailing-zero builtins are undefined for a zero argument: t
        parameter width, must be the value that the dominating non-zero test examined (a 64-bit test does not protect a 32-bit builtin)
 R11.9  every declared local of an emitted function carries its own `= 0` initialiser (no read of an indeterminate object)
 R11.10 declaration and use writers spell every identifier alike (shared twin-emitter rule; a mismatch does not compile)
+R11.12 no memcpy between two linear-memory locations (possibly overlapping ranges: undefined; memmove is required)
 R11.11 every operand-stack variable the branch emitters mention is declared (shared with C03 R03.5; otherwise: undeclared identifier)
 R11.5  no typed dereference of linear memory in the little-endian configuration (only byte copies / atomics)
 R11.6  compile witness: one translation unit containing every template compiles without errors with gcc and clang
@@ -416,6 +417,33 @@ def _split_two_literals(s):
     return tuple(out) if len(out) == 2 else None
 
 
+def check_overlapping_memcpy(chk):
+    htu = runtime.header('le')
+    n = 0
+    for name, f in sorted(htu.functions.items()):
+        body = astdb.fn_body(f)
+        if body is None or not (astdb.file_of(f) or '').endswith('w2c2_base.h'):
+            continue
+        for c in walk(body):
+            if c.get('kind') != 'CallExpr' or astdb.callee_name(c) not in ('memcpy', '__builtin_memcpy', '__builtin___memcpy_chk'):
+                continue
+            args = astdb.call_args(c)
+            if len(args) < 3:
+                continue
+            n += 1
+
+            def in_memory(e):
+                return any(x.get('kind') == 'MemberExpr' and x.get('name') == 'data' and 'wasmMemory' in htu.desugar(astdb.qtype(kids(x)[0]))
+                           for x in walk(e))
+            both = in_memory(args[0]) and in_memory(args[1])
+            chk.expect(not both, 'R11.12', '%s:memcpy@%s' % (name, (astdb.loc_str(c) or '').split(':')[-1]),
+                       '%s copies from linear memory to linear memory with memcpy (%s): the module chooses both ranges and they may overlap '
+                       '(memory.copy must handle that) - memcpy on overlapping objects is undefined behaviour, an overlap-safe copy (memmove) is needed'
+                       % (name, astdb.expr_text(c)[:120]), 'runtime/%s:memcpy' % name, astdb.loc_str(c))
+    chk.require(n >= 4, 'only %d memcpy calls found in the runtime header' % n)
+    chk.ok('R11.12', 'memcpy-calls-scanned', '%d memcpy calls of the runtime header: none copies linear memory to linear memory' % n)
+
+
 def run(chk):
     chk.explanation = (
         'All statement templates of the opcode table (both formatting modes) plus control-flow scripts are extracted by partial evaluation, '
@@ -565,6 +593,10 @@ def run(chk):
     finally:
         c03.DECL_RULE[0] = 'R03.5'
     chk.require(n_decl >= 100, 'declared-slot rule evaluated on %d scripts only' % n_decl)
+    # R11.12: memcpy between two locations of linear memory - ranges that the module chooses and that may overlap - is undefined
+    # behaviour (7.24.2.1); such a copy needs memmove.  Every memcpy call of the runtime header is examined: a call is fine when at
+    # most one side points into a memory's data
+    check_overlapping_memcpy(chk)
     chk.ok('R11.11', 'slots-declared', '%d control-flow scripts use declared operand-stack variables only' % n_decl)
     compile_witness(chk, h.source(), chk.tier)
     if undecided and not chk.unlisted_violations():
